@@ -24,7 +24,7 @@ CHECKS = {
         LOOP_NOTE + " Program order only: instruction reordering across the fences is invisible to any test.",
         "DESIGN.md section 4, C02"),
     "C03": (
-        "property-based testing: closed form s*T*ceil(n/T) vs per-thread call counts, recorded samples, Stats and printed cells; the same closed form over generated crates run through main(), run_benches(), test_benches() and through builder calls followed by config_with_args() over real flags and DIVAN_* variables (child process); the builder + flags + variables route also with the command line parsed in-process by the real clap command (hook __verif::cli), ten times the cases",
+        "property-based testing: closed form s*T*ceil(n/T) vs per-thread call counts, recorded samples, Stats and printed cells; the same closed form over generated crates run through main(), run_benches(), test_benches() and through builder calls followed by config_with_args() over real flags and DIVAN_* variables (child process); the builder + flags + variables route also with the command line parsed in-process by the real clap command (hook __verif::cli), ten times the cases; test runs requested as --test, --bench --test and --test --bench; printed samples / iters cells of every thread-count row of bench runs through main()",
         "Generated (n, s, T, mode, entry, shape, max_time in {unset,0}) with n biased to {0,1,T-1,T,T+1,default}; the per-thread number of timed sections and calls, the recorded samples, Stats.sample_count/iter_count and the printed samples/iters cells must equal the closed form of the statement. Exploration only.",
         LOOP_NOTE,
         "DESIGN.md section 4, C03"),
@@ -96,7 +96,7 @@ CHECKS = {
     "C17": (
         "property-based testing: printed rows zipped with the invocation log (label = rendering of the received value / const / type), args evaluated once; twin level over sorts, reversals and filters keeping strict subsets of the arguments",
         "Generated crates in which most benchmarks take args (also combined with types / consts) x 3 sorts x 2 directions x filters x thread lists: the sequence of printed rows (parsed back) is zipped with the sequence of body invocations, which log the argument value, const label and type label they actually received; every pair must agree, and each args expression is evaluated exactly once per process and shared by all generic instantiations. Exploration only.",
-        TWIN_NOTE + " The macro-generated glue for the individual argument iterator kinds is exercised on compiled programs only where the e3 groups run (see evidence).",
+        TWIN_NOTE + " The macro-generated glue for the individual argument iterator kinds is exercised on compiled programs only where the e3 groups run (see evidence). Argument labels are distinct within a list: which of two arguments with the same rendering a row runs is not decided (seeded change C17-F is a documented miss, DESIGN.md section 12, round 7).",
         "DESIGN.md section 4, C17"),
     "C18": (
         "property-based testing: interval-membership oracle on the printed string in exact big-integer arithmetic (no floats, no division), canonical-form rules, boundary generators",
